@@ -177,6 +177,10 @@ def server_application(run, tier):
                     cases.append(dict(threads=threads, backlog=backlog, listen=" ".join(["127.0.0.1:0"] * nl)))
         for perms in ("600", "660", "644"):
             cases.append(dict(threads=2, unix_socket=os.path.join(tmp, f"s{perms}.sock"), unix_socket_perms=perms))
+        for nl in (1, 2):
+            for use_poll in (False, True):
+                for lt in (1, 7):
+                    cases.append(dict(threads=1, backlog=5, listen=" ".join(["127.0.0.1:0"] * nl), asyncore_use_poll=use_poll, asyncore_loop_timeout=lt))
         for kw in cases:
             n += 1
             del started[:], listens[:]
@@ -196,6 +200,20 @@ def server_application(run, tier):
                         run.violation("server:listen-address", f"create_server({kw}): bound to {[o.socket.getsockname() for o in lst]}", {"kw": kw})
                     if listens != [kw["backlog"]] * want:
                         run.violation("server:backlog", f"create_server({kw}): listen() called with {listens}", {"kw": kw})
+                    # run(): the loop must be entered with the configured poll flavour, timeout and map
+                    loops = []
+
+                    class Rec:
+                        @staticmethod
+                        def loop(*a, **k):
+                            loops.append((a, k))
+
+                    srv.asyncore = Rec
+                    srv.run()
+                    want_loop = dict(timeout=kw.get("asyncore_loop_timeout", 1), use_poll=kw.get("asyncore_use_poll", False))
+                    if len(loops) != 1 or loops[0][0] or {k: loops[0][1].get(k) for k in want_loop} != want_loop or loops[0][1].get("map") is not m:
+                        got = [{k: v for k, v in l[1].items() if k != "map"} for l in loops]
+                        run.violation("server:loop-arguments", f"create_server({kw}).run() entered the loop with {got}, expected {want_loop} and the server's map", {"kw": kw})
                 else:
                     mode = stat.S_IMODE(os.stat(kw["unix_socket"]).st_mode)
                     if mode != int(kw["unix_socket_perms"], 8):
@@ -498,6 +516,8 @@ def main(tier, only=None):
         ("127.0.0.1:9003 127.0.0.1:9004", [(socket.AF_INET, "127.0.0.1", 9003), (socket.AF_INET, "127.0.0.1", 9004)]),
         ("127.0.0.1:9003 127.0.0.1:9003", [(socket.AF_INET, "127.0.0.1", 9003)]),
         ("127.0.0.1", [(socket.AF_INET, "127.0.0.1", 8080)]),
+        ("127.0.0.1:9003 127.0.0.2", [(socket.AF_INET, "127.0.0.1", 9003), (socket.AF_INET, "127.0.0.2", 8080)]),
+        ("127.0.0.2 127.0.0.1:9003 127.0.0.3", [(socket.AF_INET, "127.0.0.1", 9003), (socket.AF_INET, "127.0.0.2", 8080), (socket.AF_INET, "127.0.0.3", 8080)]),
         ("0.0.0.0:9005", [(socket.AF_INET, "0.0.0.0", 9005)]),
     ):
         for form in ("str", "list"):
